@@ -485,6 +485,33 @@ theorem last_applied_eq_column {stations : List String} {m : Mat K} (h : m.WF st
   simp only [lastApplied, hnot, if_false, Nat.add_sub_cancel]
   exact hv1
 
+/-- The same in closed form, and tied to the specification: after any sequence of loop trips from the
+    zero matrix, a scheduler reading `last_applied_pilot_signals` at `iteration = t + 1` (`t > 0`,
+    column `t` allocated) sees, for each active EV that had arrived by `t`, exactly
+    `pilotAt (all submissions so far) station t`. -/
+theorem last_applied_eq_spec {stations : List String} (hn : stations.Nodup) (w : Nat)
+    (trips : List (Period K × Nat)) (m' : Mat K) (cols : List (List K))
+    (hrun : runTrips stations (Mat.zeros stations.length w) trips = .ok (m', cols))
+    (t : Nat) (ht : 0 < t) (htw : t < m'.width)
+    (active : List (String × String × Nat)) (hreg : ∀ a ∈ active, a.2.1 ∈ stations) :
+    lastApplied stations m' (t + 1) active =
+      some ((active.filter fun a => decide (a.2.2 ≤ t)).map fun a =>
+        (a.1, pilotAt stations (subsOf (trips.map Prod.fst)) a.2.1 t)) := by
+  obtain ⟨hwf, hget, -, -⟩ := trips_applied_eq_spec hn w trips m' cols hrun
+  have hnot : ¬ (t + 1 ≤ 1) := by omega
+  simp only [lastApplied, hnot, if_false, Nat.add_sub_cancel]
+  apply lastApplied_mapM_aux
+  intro a ha
+  have hs : a.2.1 ∈ stations := hreg a (List.mem_filter.1 ha).1
+  have hi : stations.idxOf a.2.1 < stations.length := List.idxOf_lt_length_iff.2 hs
+  have hi' : stations.idxOf a.2.1 < m'.rows.length := by rw [hwf.1]; exact hi
+  have hlen : t < (m'.rows[stations.idxOf a.2.1]).length := by
+    rw [hwf.2 _ (List.getElem_mem _)]; exact htw
+  rw [if_pos (List.contains_iff_mem.2 hs), List.getElem?_eq_getElem hi']
+  simp only [List.getElem?_eq_getElem hlen, Option.map_some]
+  rw [← hget]
+  simp [Mat.get, List.getD_eq_getElem?_getD, hi', hlen]
+
 /-- period 2 applied [5, 9]; in period 3 the scheduler sees 5 for session x (station A, arrived at 0)
     and nothing for y (station B, arrives at 3); in periods 0 and 1 it sees nothing at all -/
 example :
